@@ -236,6 +236,7 @@ impl<F: Float, R: Rng + Clone, DA: Data<Elem = F>, T, D: Distance<F>>
 
         let mut min_inertia = F::infinity();
         let mut best_centroids = None;
+        let mut best_memberships = Array1::zeros(n_samples);
         let mut memberships = Array1::zeros(n_samples);
         let mut dists = Array1::zeros(n_samples);
 
@@ -271,13 +272,16 @@ impl<F: Float, R: Rng + Clone, DA: Data<Elem = F>, T, D: Distance<F>>
             if inertia < min_inertia {
                 min_inertia = inertia;
                 best_centroids = Some(centroids.clone());
+                // keep the memberships which belong to these centroids, not the ones of the
+                // last run
+                best_memberships.assign(&memberships);
             }
         }
 
         match best_centroids {
             Some(centroids) => {
                 let mut cluster_count = Array1::zeros(self.n_clusters());
-                memberships
+                best_memberships
                     .iter()
                     .for_each(|&c| cluster_count[c] += F::one());
                 Ok(KMeans {
